@@ -305,19 +305,22 @@ def run(ctx):
             ctx.ob("R09.5", "running.on-parent-edge", dominated_by_edges(fn, bb, edges), fn.loc(bb, si), "Running is stored on the Some (parent) edge of fork()")
     fk = prog.one("posix::fork")
     T = M.Terms(fk)
-    pidt = None
+    is_pid = lambda t: M.contains(t, lambda u: u[0] == "call" and u[1] == "libc::fork") and M.contains(t, lambda u: u[0] == "call" and u[1] == "posix::check_err")
+    zero_e, nonzero_e = zero_test_edges(fk, T, is_pid)
     for bb in sorted(fk.live_blocks()):
         for si, s in enumerate(fk.blocks[bb]["stmts"]):
             if s["k"] == "assign" and s["r"]["k"] == "agg" and s["r"].get("adt") == "std::option::Option":
-                is_zero = lambda t: t[0] == "bin" and t[1] == "Eq" and const_of(t[3]) == 0 and M.contains(t[2], lambda u: u[0] == "call" and u[1] == "libc::fork")
                 if s["r"]["variant"] == "None":
-                    e = bool_edges(fk, T, is_zero, True)
-                    ctx.ob("R09.5", "fork.none-iff-zero", dominated_by_edges(fk, bb, e), fk.loc(bb, si), "fork() yields None (child) only when the pid is 0")
+                    ctx.ob("R09.5", "fork.none-iff-zero", dominated_by_edges(fk, bb, zero_e), fk.loc(bb, si), "fork() yields None (child) only when the pid is 0")
                 else:
-                    e = bool_edges(fk, T, is_zero, False)
                     pl = T.operand(s["r"]["ops"][0])
-                    ok = dominated_by_edges(fk, bb, e) and M.contains(pl, lambda u: u[0] == "call" and u[1] == "libc::fork") and M.contains(pl, lambda u: u[0] == "call" and u[1] == "posix::check_err")
-                    ctx.ob("R09.5", "fork.some-positive", ok, fk.loc(bb, si), "Some(pid) only for pid != 0 that passed check_err (non-negative): %s" % M.term_str(pl))
+                    ok = dominated_by_edges(fk, bb, nonzero_e) and is_pid(pl)
+                    ctx.ob("R09.5", "fork.some-positive", ok, fk.loc(bb, si), "Some(pid) only for pid != 0 that passed check_err: %s" % M.term_str(pl))
+    # the failure test is meaningful only on a signed value: check_err::<T> tests `num < T::default()`
+    for fn_, bb_, t_ in callers_of(prog, "posix::check_err"):
+        if fn_.path == fk.path:
+            ga = t_["f"].get("gargs", [])
+            ctx.ob("R09.5", "fork.error-test-is-signed", ga[:1] in (["i32"], ["i64"], ["isize"]), fn_.loc(bb_), "check_err is instantiated at %s in posix::fork: with an unsigned type `num < 0` is never true and fork()'s -1 becomes pid 4294967295" % ga)
     ce = prog.one("posix::check_err")
     T = M.Terms(ce)
     lt = bool_edges(ce, T, lambda t: t[0] == "call" and t[1].endswith("PartialOrd::lt"), True)
@@ -343,3 +346,5 @@ def run_thorough(ctx):
     ctx.witness("R09.6", ['PrivateChildState', 'PrivateDetached', 'NoClone', 'NoLiteral', 'WaitNeedsMut'])
 
     deep_census(ctx, "R09.2", WAIT_EXTERNS, {"waitpid": ["posix::waitpid"]})
+    import winrules
+    winrules.c09_state(ctx)
